@@ -43,4 +43,30 @@ def opsOf (dec : String → G) (tw : String → Nat) : Tok → List EOp
 def opsOfToks (dec : String → G) (tw : String → Nat) (toks : List Tok) : List EOp :=
   toks.flatMap (opsOf dec tw)
 
+/-! ### grapheme clustering in the emulator's parser
+
+The emulator's parser (like every terminal in mode 2027) clusters CONSECUTIVE printable text: two
+text writes with no control sequence between them are re-segmented together. `merges a b` says
+that the graphemes `a` and `b` (each a whole cluster on its own) form ONE cluster when `b` follows `a`
+directly (regional indicator pairs, Hangul L + V, an emoji followed by ZWJ + emoji, …); `cat a b` is
+that cluster. Both are parameters (uniseg is not modelled). -/
+
+def clusterGo (merges : String → String → Bool) (cat : String → String → String) : Option String → List Tok → List Tok
+  | none, [] => []
+  | some p, [] => [.text p]
+  | none, .text a :: rest => clusterGo merges cat (some a) rest
+  | some p, .text a :: rest =>
+    if merges p a then clusterGo merges cat (some (cat p a)) rest else .text p :: clusterGo merges cat (some a) rest
+  | none, t :: rest => t :: clusterGo merges cat none rest
+  | some p, t :: rest => .text p :: t :: clusterGo merges cat none rest
+
+/-- The text writes as the parser re-segments them. -/
+def clusterToks (merges : String → String → Bool) (cat : String → String → String) (toks : List Tok) : List Tok :=
+  clusterGo merges cat none toks
+
+/-- The parsed sequences of a token list, with the parser's clustering of consecutive text. -/
+def opsOfToksM (merges : String → String → Bool) (cat : String → String → String) (dec : String → G) (tw : String → Nat)
+    (toks : List Tok) : List EOp :=
+  opsOfToks dec tw (clusterToks merges cat toks)
+
 end VaxisModel.Model.C12Compose
